@@ -27,12 +27,14 @@ impl Interpreter {
         }
     }
 
-    /// True when some conditional in the elements (at any depth) holds a further OP_ELSE in its else branch
+    /// True when some conditional in the elements (at any depth) holds a conditional opcode on its own in one of its branches:
+    /// a further OP_ELSE in the else branch, or (in a hand-built block) an OP_ELSE / OP_ENDIF / OP_IF that belongs to no block
     fn has_repeated_else(bits: &[ScriptBit]) -> bool {
+        let stray = |branch: &[ScriptBit]| branch.iter().any(|b| matches!(b, ScriptBit::OpCode(OpCodes::OP_IF | OpCodes::OP_NOTIF | OpCodes::OP_ELSE | OpCodes::OP_ENDIF)));
         bits.iter().any(|bit| match bit {
             ScriptBit::If { pass, fail, .. } => {
-                let in_else = fail.as_ref().map_or(false, |f| f.iter().any(|b| matches!(b, ScriptBit::OpCode(OpCodes::OP_ELSE))) || Interpreter::has_repeated_else(f));
-                in_else || Interpreter::has_repeated_else(pass)
+                let in_else = fail.as_ref().map_or(false, |f| stray(f) || Interpreter::has_repeated_else(f));
+                in_else || stray(pass) || Interpreter::has_repeated_else(pass)
             }
             _ => false,
         })
